@@ -115,7 +115,7 @@ const c15OnelineTemplate = "{{range $ := .}}{{$.Filepath}}:{{$.Line}}:{{$.Column
 func TestVerifC15(t *testing.T) {
 	r := vNewReport("C15")
 	defer r.Write(t)
-	r.Extra["rule"] = "5 workflows (one of them not YAML at all, one with diagnostics of different rules at the same position) x 17 -ignore sets x 4 paths globs x 5 config ignore sets given by the repository's actionlint.yaml or by -config-file (repository without its own) x {no further entry, a further matching entry, a further non-matching entry, patterns given as YAML aliases} x 4 working directories x 5 path spellings (relative, ./relative, absolute; piped through stdin with a relative / absolute -stdin-filename) through Command.Main (-oneline -no-color), complete product; oracle: unfiltered list minus diagnostics matched by a CLI pattern or by a config pattern whose glob matches the root-relative path, order preserved, exit 1 iff non-empty; plus every ordered pair / triple of files of 6 different locations (repository, sibling repository, nested repository, no repository, repositories whose .git is a file: alone and nested) x 3 working directories x relative / absolute spelling x {-oneline, equivalent -format template} in one invocation; plus exit-status rows (invalid flag 2; unreadable file, bad config, bad -ignore regexp, bad config regexp, non-string ignore element 3). class = (remaining diagnostics, exit status); non-trivial = something is filtered"
+	r.Extra["rule"] = "5 workflows (one of them not YAML at all, one with diagnostics of different rules at the same position) x 17 -ignore sets x 4 paths globs x 5 config ignore sets given by the repository's actionlint.yaml or by -config-file (repository without its own) x {no further entry, a further matching entry, a further non-matching entry, patterns given as YAML aliases} x 4 working directories x 7 path spellings (relative, ./relative, absolute; piped through stdin with a relative / absolute -stdin-filename; through a symbolic link to the repository's root, absolute / relative) through Command.Main (-oneline -no-color), complete product; oracle: unfiltered list minus diagnostics matched by a CLI pattern or by a config pattern whose glob matches the root-relative path, order preserved, exit 1 iff non-empty; plus every ordered pair / triple of files of 6 different locations (repository, sibling repository, nested repository, no repository, repositories whose .git is a file: alone and nested) x 3 working directories x relative / absolute spelling x {-oneline, equivalent -format template} in one invocation; plus exit-status rows (invalid flag 2; unreadable file, bad config, bad -ignore regexp, bad config regexp, non-string ignore element 3). class = (remaining diagnostics, exit status); non-trivial = something is filtered"
 	r.Extra["assumptions"] = []string{"glob match bits are part of the scenario table (written by hand for 4 globs x 3 files)", "working directory is process-global: cases run sequentially inside each worker process"}
 	orig, _ := os.Getwd()
 	defer os.Chdir(orig)
@@ -144,6 +144,11 @@ func TestVerifC15(t *testing.T) {
 		files["parent/proj/.github/workflows/"+n] = c
 	}
 	vWriteFiles(t, base, files)
+	linkRoot := filepath.Join(base, "parent", "link-to-proj")
+	if err := os.Symlink(root, linkRoot); err != nil {
+		r.HarnessError("symlink: %v", err)
+		return
+	}
 	cfgPath := filepath.Join(root, ".github", "actionlint.yaml")
 	cwds := map[string]string{"root": root, "parent": filepath.Join(base, "parent"), "nested": filepath.Join(root, ".github", "workflows"), "unrelated": filepath.Join(base, "other")}
 	common := []string{"-oneline", "-no-color", "-shellcheck=", "-pyflakes="}
@@ -268,7 +273,7 @@ func TestVerifC15(t *testing.T) {
 				g := &c15Globs[gi]
 				for pi, cfgPats := range c15CfgSets {
 					for _, cwdName := range []string{"root", "parent", "nested", "unrelated"} {
-						for _, spelling := range []string{"relative", "dot-relative", "absolute", "stdin-relative", "stdin-absolute"} {
+						for _, spelling := range []string{"relative", "dot-relative", "absolute", "stdin-relative", "stdin-absolute", "symlink-absolute", "symlink-relative"} {
 							for second := 0; second < 4; second++ {
 								for _, via := range []string{"repo", "flag"} {
 									cfgTarget = cfgPath
@@ -283,10 +288,14 @@ func TestVerifC15(t *testing.T) {
 										return
 									}
 									abs := filepath.Join(root, ".github/workflows", wf)
+									if strings.HasPrefix(spelling, "symlink-") {
+										// the repository reached through a symbolic link to its root directory
+										abs = filepath.Join(linkRoot, ".github/workflows", wf)
+									}
 									arg := abs
 									// stdin-*: the workflow is piped in and the path is given with -stdin-filename
 									viaStdin := strings.HasPrefix(spelling, "stdin-")
-									if spelling != "absolute" && spelling != "stdin-absolute" {
+									if spelling != "absolute" && spelling != "stdin-absolute" && spelling != "symlink-absolute" {
 										rel, err := filepath.Rel(cwds[cwdName], abs)
 										if err != nil {
 											continue
